@@ -22,10 +22,18 @@ managers — shares API, settings + `load_from_settings()`, in-place edits of th
 user manager's poll of `settings.users.friends` / `.blocked`, a scan — requests such a cycle, and no
 request is lost before a cycle starts.
 
+(6) a cycle that runs while a state method of an upload is in flight — its state lock held: `pause()`
+/ `abort()` waiting for the upload's task to close its file connection, a transition waiting for its
+listeners — decides on what the upload shows, its own `abort(…)` waits for the lock (the job with it)
+and lands after everything that was pending: the upload ends ABORTED for the matching reason or on the
+user's request, or finished (`C08_change_during_transition*`, `C08_job_waits_for_locked_upload`).
+
 Known findings (not repaired): `create_directory_reply` takes no user, so the files of a locked
 directory are listed to anybody who asks for that directory (`C08_directory_listing_*`); a polled
 setting that is changed and changed back within one polling interval of the user manager is never
-announced (`C08_settings_change_pending_partial`, `C08_flip_between_polls_counterexample`).
+announced (`C08_settings_change_pending_partial`, `C08_flip_between_polls_counterexample`); proposed:
+a re-queue that waits behind the lock of an upload showing ABORTED / COMPLETE / FAILED runs after the
+cycle looked (`C08_change_during_transition_partial`, `C08_requeue_behind_lock_counterexample`).
 -/
 namespace AioslskVerif.C08
 open AioslskVerif AioslskVerif.Transfer AioslskVerif.Entitle
@@ -204,19 +212,33 @@ theorem C08_reconcile_finished (b n : Bool) (x : Xfer) (h : x.state = .complete 
 
 /-- **Post-condition of a management cycle that runs with the shares-changed flag**, lifted from
 the table to any list of uploads in any configuration: the uploads keep their places, and every one
-that is not COMPLETE / FAILED is `Reconciled` (VIRGIN exists only inside `_add_upload`, between
-`add` and `queue` of one handler run, never at a settled point). -/
-theorem C08_reconcile (s : S) (hflag : s.sharesChanged = true) (hU : UniquePaths s.cfg s.sh) :
-    (step s .cycle).1.xs.length = s.xs.length ∧ (step s .cycle).1.sharesChanged = false ∧
-    ∀ (k : Nat) (x : Xfer), s.xs[k]? = some x → x.state ≠ .complete → x.state ≠ .failed → x.state ≠ .virgin →
+that is not COMPLETE / FAILED and whose state lock is free is `Reconciled` (VIRGIN exists only inside
+`_add_upload`, between `add` and `queue` of one handler run, never at a settled point). For the
+uploads whose lock is held see `C08_change_during_transition` below. The flag is cleared — unless a
+state lock is held and the code asks for another look then (`relookWhenLocked`: it does after
+`fixes/C08-relook-after-state-lock.patch`). -/
+theorem C08_reconcile (s : S) (hflag : s.sharesChanged = true) (hjob : jobWaiting s.flights = false)
+    (hU : UniquePaths s.cfg s.sh) :
+    (step s .cycle).1.xs.length = s.xs.length ∧
+    (step s .cycle).1.sharesChanged = (relookWhenLocked && !s.flights.isEmpty) ∧
+    ∀ (k : Nat) (x : Xfer), s.xs[k]? = some x → isLocked s.flights k = false →
+      x.state ≠ .complete → x.state ≠ .failed → x.state ≠ .virgin →
       ∃ x', (step s .cycle).1.xs[k]? = some x' ∧ Reconciled s.cfg s.sh x x' := by
-  simp only [step, hflag, if_true, reconcile, List.length_map, true_and]
-  intro k x hk h1 h2 h3
-  exact ⟨reconcile1 s.cfg s.sh x, by simp [hk], reconcile1_spec s.cfg s.sh hU x h1 h2 h3⟩
+  simp only [step, hflag, hjob, if_true, Bool.false_eq_true, if_false, reconcileL, length_reconcileFrom, true_and]
+  intro k x hk hfree h1 h2 h3
+  refine ⟨reconcile1 s.cfg s.sh x, ?_, reconcile1_spec s.cfg s.sh hU x h1 h2 h3⟩
+  rw [getElem?_reconcileFrom, hk]
+  simp [cycleOne_free _ _ _ _ _ hfree]
+
+/-- … and with no state lock held at all this is `manage_shares_changed` as a plain map. -/
+theorem C08_reconcile_no_lock (s : S) (hflag : s.sharesChanged = true) (hno : s.flights = []) :
+    (step s .cycle).1.xs = reconcile s.cfg s.sh s.xs ∧ (step s .cycle).1.flights = [] := by
+  simp [step, hflag, hno, jobWaiting, reconcileL_free]
 
 /-- Without the flag a cycle does not touch the uploads' abort state. -/
 theorem C08_cycle_idle (s : S) (hflag : s.sharesChanged = false) : (step s .cycle).1 = s := by
-  simp [step, hflag]
+  simp only [step, hflag, Bool.false_eq_true, if_false]
+  split <;> rfl
 
 /-! ## Every change is followed by a cycle that sees it
 
@@ -300,6 +322,8 @@ theorem C08_change_requests_cycle (s : S) (hwf : WF s) (op : Op) (hop : op ≠ .
   | meth k m => exact absurd rfl h
   | userAbort k => exact absurd rfl h
   | userQueue k => exact absurd rfl h
+  | beginCall k c ph => exact absurd rfl h
+  | endCall k => exact absurd rfl h
 
 /-- **No announced change is lost**: after an op that changed anything entitlement depends on (as
 announced), whatever follows that is not a cycle (requests, further changes — also those raised
@@ -409,6 +433,8 @@ theorem C08_pending_persists (s : S) (op : Op) (hop : op ≠ .cycle) (hnf : flip
     | meth k m => exact h
     | userAbort k => exact h
     | userQueue k => exact h
+    | beginCall k c ph => exact h
+    | endCall k => exact h
 
 /-- **Every op that changes anything entitlement depends on — in the settings themselves — leaves a
 change pending** (the flag is set, or the next poll will set it), unless it is a flip-back. -/
@@ -489,6 +515,8 @@ theorem C08_settings_change_pending_partial (s : S) (hwf : WF s) (op : Op) (hop 
   | meth k m => exact absurd rfl h
   | userAbort k => exact absurd rfl h
   | userQueue k => exact absurd rfl h
+  | beginCall k c ph => exact absurd rfl h
+  | endCall k => exact absurd rfl h
 
 /-- **No change of the settings is lost** (flip-backs apart): after an op that changed anything
 entitlement depends on, whatever follows that is neither a cycle nor a flip-back — requests, state
@@ -544,20 +572,203 @@ theorem C08_reload_exact (s : S) (hwf : WF s) (es : List DirInfo) (disk : List (
         | cons a l => rfl
       simp [this]
 
+/-! ## A change while a state method of the upload is in flight
+
+Every public state method runs under the transfer's `_state_lock` and can be suspended while it
+holds it: `pause()` / `abort()` of an INITIALIZING / UPLOADING upload wait for the task they cancelled
+(the file connection being closed), and every transition waits for its state listeners. A
+management cycle that runs meanwhile takes its decision on what the upload shows at that instant;
+the state method it decides on (`abort(reason=…)`, the re-queue) waits for the lock — the job with
+it, and the management task starts no other job — and is dispatched on the state the upload has when
+its turn comes, after the holder and after every call that was made before. -/
+
+/-- Full statement — FALSE for the code as it is (known finding, proposed:
+`C08-requeue-behind-state-lock-not-reevaluated`, `C08_requeue_behind_lock_counterexample`):
+
+    … the same without the hypothesis `hq`
+
+An upload that SHOWS a state the cycle takes for settled — ABORTED, COMPLETE, FAILED — while its lock
+is still held (the listeners are being told) and a re-queue is waiting behind that lock is looked at
+before the re-queue runs, and by nobody afterwards. Proved: the statement for every other held lock.
+
+**An upload that some condition applies to when the cycle looks at it — its user is blocked, its
+file is not shared with the user any more (or the user asked for the abort) — while one of its state
+methods is in flight ends, once the lock is released, ABORTED for that reason (or for the reason of an
+abort that was under way or waiting: the user's), or COMPLETE / FAILED — never PAUSED, QUEUED,
+INITIALIZING or UPLOADING.** Whatever call holds the lock, in whichever of its two suspension points,
+and whatever calls wait behind it. -/
+theorem C08_change_during_transition_partial (s : S) (hflag : s.sharesChanged = true)
+    (hjob : jobWaiting s.flights = false) (k : Nat) (x : Xfer) (f : Flight)
+    (hk : s.xs[k]? = some x) (hf : flightOf s.flights k = some f) (hv3 : x.state ≠ .virgin) (r : Reason)
+    (hv : verdict (userBlocked s.cfg x) (fileNotShared s.cfg s.sh x) x.reason = some r)
+    (hq : (x.state = .complete ∨ x.state = .failed ∨ x.state = .aborted) → ∀ c ∈ f.pendingCalls, c.m ≠ .queue) :
+    ∃ x', (run s [.cycle, .endCall k]).xs[k]? = some x' ∧
+      isLocked (run s [.cycle, .endCall k]).flights k = false ∧ x'.user = x.user ∧ x'.path = x.path ∧
+      ((x'.state = .aborted ∧ (x'.reason = some r ∨ ∃ c ∈ f.pendingCalls, c.m = .abort ∧ x'.reason = c.r)) ∨
+        x'.state = .complete ∨ x'.state = .failed) := by
+  obtain ⟨h1, h2⟩ := cycle_end_locked s hflag hjob k x f hk hf
+  have hlock : isLocked s.flights k = true := by simp [isLocked, hf]
+  have hact := cycleAct_of_verdict _ _ x.state x.reason r hv
+  by_cases hfin : x.state = .complete ∨ x.state = .failed
+  · -- COMPLETE / FAILED: left alone by the cycle, every pending call is refused
+    have hco : cycleOne s.cfg s.sh s.flights k x = (x, none) := by
+      simp [cycleOne, hlock, Xfer.sr, hact, hfin]
+    rw [hco] at h1
+    have hrun : runCalls f.pendingCalls x.sr = x.sr :=
+      runCalls_refused _ _ (by rcases hfin with h | h <;> simp [Xfer.sr, h])
+        (hq (by rcases hfin with h | h <;> simp [h]))
+    refine ⟨_, h1, h2, rfl, rfl, Or.inr ?_⟩
+    simp only [Option.toList_none, List.append_nil]
+    rw [hrun]
+    exact hfin
+  · by_cases hab : x.state = .aborted
+    · -- shows ABORTED: the reason is written directly, every pending call is refused
+      have hco : cycleOne s.cfg s.sh s.flights k x = (x.withSR (x.state, some r), none) := by
+        simp only [cycleOne, hlock, if_true, Xfer.sr, hact]
+        simp [hab]
+      rw [hco] at h1
+      have hrun : runCalls f.pendingCalls (x.withSR (x.state, some r)).sr = (x.withSR (x.state, some r)).sr :=
+        runCalls_refused _ _ (by simp [Xfer.sr, Xfer.withSR, hab]) (hq (by simp [hab]))
+      refine ⟨_, h1, h2, rfl, rfl, Or.inl ?_⟩
+      simp only [Option.toList_none, List.append_nil, hrun]
+      exact ⟨by simp [Xfer.withSR, Xfer.sr, hab], Or.inl (by simp [Xfer.withSR, Xfer.sr])⟩
+    · -- a live state: `abort(reason=r)` waits for the lock and runs after everything that was pending
+      have hco : cycleOne s.cfg s.sh s.flights k x = (x, some { m := .abort, r := some r, job := true }) := by
+        simp only [not_or] at hfin
+        simp [cycleOne, hlock, Xfer.sr, hact, hfin.1, hfin.2, hab]
+      rw [hco] at h1
+      simp only [Option.toList_some, runCalls_append] at h1
+      refine ⟨_, h1, h2, rfl, rfl, ?_⟩
+      have hone : ∀ (c : Call) (y : St × Option Reason), runCalls [c] y = runCall c y := fun _ _ => rfl
+      simp only [hone, Xfer.withSR]
+      have hy3 := runCalls_not_virgin f.pendingCalls x.sr (by simpa [Xfer.sr] using hv3)
+      rcases abort_lands (some r) true (runCalls f.pendingCalls x.sr) with h | ⟨h, hst⟩
+      · left
+        rw [h]
+        exact ⟨rfl, Or.inl rfl⟩
+      · rw [h]
+        rcases hst with hst | hst | hst | hst
+        · exact absurd hst hy3
+        · exact Or.inr (Or.inl hst)
+        · exact Or.inr (Or.inr hst)
+        · left
+          refine ⟨hst, Or.inr ?_⟩
+          exact runCalls_aborted f.pendingCalls f.pendingCalls (fun _ h => h) x.sr
+            (fun h => absurd (by simpa [Xfer.sr] using h) hab) hst
+
+/-- … and until that lock is released the upload stays as it shows, the job of that cycle waits and
+the management task starts no other job (`busy_cycle_noop`): whatever changes meanwhile raises the
+flag again (`C08_change_requests_cycle`) for the cycle that follows. -/
+theorem C08_job_waits_for_locked_upload (s : S) (hflag : s.sharesChanged = true)
+    (hjob : jobWaiting s.flights = false) (k : Nat) (x : Xfer) (f : Flight)
+    (hk : s.xs[k]? = some x) (hf : flightOf s.flights k = some f) (r : Reason)
+    (hv : verdict (userBlocked s.cfg x) (fileNotShared s.cfg s.sh x) x.reason = some r)
+    (hlive : x.state ≠ .complete ∧ x.state ≠ .failed ∧ x.state ≠ .aborted) :
+    (step s .cycle).1.xs[k]? = some x ∧ jobWaiting (step s .cycle).1.flights = true ∧
+      step (step s .cycle).1 .cycle = ((step s .cycle).1, .busy) := by
+  have hlock : isLocked s.flights k = true := by simp [isLocked, hf]
+  have hfk : f.k = k := by simpa [flightOf] using List.find?_some hf
+  have hfm : f ∈ s.flights := List.mem_of_find?_eq_some hf
+  have hact := cycleAct_of_verdict _ _ x.state x.reason r hv
+  have hco : cycleOne s.cfg s.sh s.flights k x = (x, some { m := .abort, r := some r, job := true }) := by
+    simp [cycleOne, hlock, Xfer.sr, hact, hlive.1, hlive.2.1, hlive.2.2]
+  have hw : jobWaiting (step s .cycle).1.flights = true := by
+    rw [cycle_flights s hflag hjob]
+    simp only [reconcileL, jobWaiting]
+    rw [List.any_map]
+    apply List.any_eq_true.2
+    refine ⟨f, hfm, ?_⟩
+    simp [hfk, hk, hco]
+  refine ⟨?_, hw, busy_cycle_noop _ hw⟩
+  rw [cycle_xs s hflag hjob, getElem?_reconcileFrom, hk]
+  simp [hco]
+
+/-- **… whatever happens elsewhere while the lock is held**: configuration changes (they raise the
+flag again), polls, scans, searches, calls on the other uploads — ordinary or suspended —, releases of
+other locks, further cycle requests (the management task starts no job while this one waits) between
+the cycle and the release change nothing about where the upload ends. -/
+theorem C08_change_during_transition_interleaved (s : S) (hflag : s.sharesChanged = true)
+    (hjob : jobWaiting s.flights = false) (k : Nat) (x : Xfer) (f : Flight)
+    (hk : s.xs[k]? = some x) (hf : flightOf s.flights k = some f) (r : Reason)
+    (hv : verdict (userBlocked s.cfg x) (fileNotShared s.cfg s.sh x) x.reason = some r)
+    (hlive : x.state ≠ .complete ∧ x.state ≠ .failed ∧ x.state ≠ .aborted)
+    (mid : List Op) (hmid : ∀ o ∈ mid, Op.leaves k o = true) :
+    (run s (.cycle :: mid ++ [.endCall k])).xs[k]? = (run s [.cycle, .endCall k]).xs[k]? ∧
+      isLocked (run s (.cycle :: mid ++ [.endCall k])).flights k = false := by
+  have hlock : isLocked s.flights k = true := by simp [isLocked, hf]
+  have hact := cycleAct_of_verdict _ _ x.state x.reason r hv
+  have hco : cycleOne s.cfg s.sh s.flights k x = (x, some { m := .abort, r := some r, job := true }) := by
+    simp [cycleOne, hlock, Xfer.sr, hact, hlive.1, hlive.2.1, hlive.2.2]
+  obtain ⟨hx1, hf1⟩ := cycle_locked s hflag hjob k x f hk hf
+  rw [hco] at hx1 hf1
+  have hw1 : ({ f with waiters := f.waiters ++ (some ({ m := .abort, r := some r, job := true } : Call)).toList } :
+      Flight).waiters.any (·.job) = true := by simp
+  obtain ⟨hx2, hf2⟩ := leaves_run mid _ k _ _ hx1 hf1 hw1 hmid
+  have e1 : run s (.cycle :: mid ++ [.endCall k]) = (step (run (step s .cycle).1 mid) (.endCall k)).1 := by
+    simp [run, List.foldl_append]
+  have e2 : run s [.cycle, .endCall k] = (step (step s .cycle).1 (.endCall k)).1 := rfl
+  rw [e1, e2]
+  obtain ⟨a1, a2⟩ := endCall_at _ k _ _ hx2 hf2
+  obtain ⟨b1, _⟩ := endCall_at _ k _ _ hx1 hf1
+  exact ⟨a1.trans b1.symm, a2⟩
+
+/-- **In the property's words**: the user is blocked for uploads, or is not entitled to the file any
+more, when the cycle looks at an upload that was not aborted on the user's request and has a state
+method in flight — the calls in flight or waiting being the user's own (an abort carries
+`Requested`). Once the lock is released the upload is ABORTED with the matching reason (Blocked
+first) or on the user's request, or it has finished. -/
+theorem C08_change_during_transition (s : S) (hflag : s.sharesChanged = true)
+    (hjob : jobWaiting s.flights = false) (hU : UniquePaths s.cfg s.sh) (k : Nat) (x : Xfer) (f : Flight)
+    (hk : s.xs[k]? = some x) (hf : flightOf s.flights k = some f) (hv3 : x.state ≠ .virgin)
+    (hreq : x.reason ≠ some .requested)
+    (hnp : isBlocked s.cfg x.user 32 = true ∨ ¬ Entitled s.cfg s.sh x.user x.path)
+    (huser : ∀ c ∈ f.pendingCalls, c.m = .abort → c.r = some .requested)
+    (hq : (x.state = .complete ∨ x.state = .failed ∨ x.state = .aborted) → ∀ c ∈ f.pendingCalls, c.m ≠ .queue) :
+    ∃ x', (run s [.cycle, .endCall k]).xs[k]? = some x' ∧
+      isLocked (run s [.cycle, .endCall k]).flights k = false ∧
+      ((x'.state = .aborted ∧
+          (x'.reason = some (if isBlocked s.cfg x.user 32 then .blocked else .notShared) ∨
+            x'.reason = some .requested)) ∨
+        x'.state = .complete ∨ x'.state = .failed) := by
+  have he : evalFlag = 32 := rfl
+  have hv : verdict (userBlocked s.cfg x) (fileNotShared s.cfg s.sh x) x.reason =
+      some (if isBlocked s.cfg x.user 32 then .blocked else .notShared) := by
+    rw [verdict_spec]
+    simp only [hreq, if_false, userBlocked, he]
+    cases hb : isBlocked s.cfg x.user 32 with
+    | true => simp
+    | false =>
+      have hne : ¬ Entitled s.cfg s.sh x.user x.path := by
+        rcases hnp with h | h
+        · rw [hb] at h; cases h
+        · exact h
+      have := (findShared_isNone_iff s.cfg s.sh hU x.user x.path).2 hne
+      simp [fileNotShared, this]
+  obtain ⟨x', h1, h2, _, _, h5⟩ := C08_change_during_transition_partial s hflag hjob k x f hk hf hv3 _ hv hq
+  refine ⟨x', h1, h2, ?_⟩
+  rcases h5 with ⟨ha, hr | ⟨c, hc, hm, hr⟩⟩ | h | h
+  · exact Or.inl ⟨ha, Or.inl hr⟩
+  · exact Or.inl ⟨ha, Or.inr (hr.trans (huser c hc hm))⟩
+  · exact Or.inr (Or.inl h)
+  · exact Or.inr (Or.inr h)
+
 /-! ## Uploads aborted on the user's request stay aborted -/
 
 /-- **Requested is sticky**: whatever the peers request and however often the friends list, the
 block list and the shared directories change and the management cycle runs, an upload aborted on
-the user's request stays ABORTED with reason Requested — until the user himself queues it again. -/
+the user's request stays ABORTED with reason Requested — until the user himself queues it again
+(by an ordinary call, or one that is suspended half-way: `beginCall`); its state lock stays free,
+since every other method is refused at once. -/
 theorem C08_requested_sticky (ops : List Op) (s : S) (k : Nat) (x : Xfer) (hk : s.xs[k]? = some x)
-    (ha : x.state = .aborted) (hr : x.reason = some .requested)
+    (ha : x.state = .aborted) (hr : x.reason = some .requested) (hfree : isLocked s.flights k = false)
     (hops : ∀ op ∈ ops, Op.requeues k op = false) :
-    (run s ops).xs[k]? = some x := by
+    (run s ops).xs[k]? = some x ∧ isLocked (run s ops).flights k = false := by
   induction ops generalizing s with
-  | nil => exact hk
+  | nil => exact ⟨hk, hfree⟩
   | cons op ops ih =>
     simp only [run, List.foldl_cons]
-    exact ih _ (sticky_step s op k x hk ha hr (hops op (by simp))) (fun o ho => hops o (by simp [ho]))
+    have h := sticky_step s op k x hk ha hr hfree (hops op (by simp))
+    exact ih _ h.1 h.2 (fun o ho => hops o (by simp [ho]))
 
 /-! ## Known finding: the directory listing ignores the share mode -/
 
@@ -644,6 +855,100 @@ theorem C08_flip_between_polls_counterexample :
   ⟨run Ex.s0 Ex.excursion, .mutFriends [], wf_run _ _ (wf_init _ rfl rfl), fun h => Op.noConfusion h, by decide,
     by decide, by decide, by decide, by decide⟩
 
+/-! ## Known finding (proposed): a re-queue waiting behind the lock of an upload that shows a settled state -/
+
+namespace ExLock
+open Ex
+/-- the user aborts the friend's upload — the abort is through but for its listeners (the upload shows
+ABORTED / Requested, its lock is held) — and queues it again at once (the call waits for the lock);
+the friend is taken off the friends list; the cycle looks at the upload: aborted on the user's
+request, nothing to do; the listeners return, the re-queue runs -/
+def stale : List Op := [.beginCall 0 { m := .abort, r := some .requested } .notifying, .userQueue 0,
+  .setFriends [], .cycle, .endCall 0]
+end ExLock
+
+/-- **… and the upload is QUEUED for a user the file is not shared with, no lock is held, no cycle is
+requested: nobody will look at it again** (the negation of `C08_change_during_transition_partial`
+without `hq`, on exactly the class `hq` excludes; witness replayed on the real code while the
+finding is listed). -/
+theorem C08_requeue_behind_lock_counterexample (hcode : relookWhenLocked = false) :
+    ∃ (s : S) (k : Nat) (x : Xfer) (f : Flight) (r : Reason),
+      s.sharesChanged = true ∧ jobWaiting s.flights = false ∧ s.xs[k]? = some x ∧
+      flightOf s.flights k = some f ∧ x.state = .aborted ∧
+      verdict (userBlocked s.cfg x) (fileNotShared s.cfg s.sh x) x.reason = some r ∧
+      (∃ c ∈ f.pendingCalls, c.m = .queue) ∧
+      (run s [.cycle, .endCall k]).xs[k]? = some ⟨1, Ex.pm, .queued, none⟩ ∧
+      findShared (run s [.cycle, .endCall k]).cfg (run s [.cycle, .endCall k]).sh 1 Ex.pm = none ∧
+      (run s [.cycle, .endCall k]).flights = [] ∧ (run s [.cycle, .endCall k]).sharesChanged = false := by
+  refine ⟨run Ex.s0 (Ex.setup ++ ExLock.stale.take 3), 0, ⟨1, Ex.pm, .aborted, some .requested⟩,
+    { k := 0, call := { m := .abort, r := some .requested }, phase := .notifying, waiters := [{ m := .queue }] },
+    .requested, by decide, by decide, by decide, by decide, rfl, by decide,
+    ⟨{ m := .queue }, by decide, rfl⟩, by decide, by decide, by decide, ?_⟩
+  -- (the one conjunct that depends on which code is modelled)
+  have h1 : (step (run Ex.s0 (Ex.setup ++ ExLock.stale.take 3)) .cycle).1.sharesChanged = false := by
+    simp [step, hcode]
+    decide
+  exact h1
+
+/-! ### … repaired by `fixes/C08-relook-after-state-lock.patch` (`relookWhenLocked = true`)
+
+With the patch `manage_shares_changed` asks for another shares cycle whenever it meets an upload whose
+state lock is held. The flag then survives every cycle that still meets a held lock, so the first
+cycle that finds every lock free runs with the flag set and `C08_reconcile` applies to ALL uploads —
+also to the one a waiting call changed after an earlier cycle had looked. -/
+
+/-- the cycles of `ops` that actually run a job all meet a held state lock -/
+def cyclesMeetLocks (s : S) : List Op → Bool
+  | [] => true
+  | .cycle :: l => (jobWaiting s.flights || !s.flights.isEmpty) && cyclesMeetLocks (step s .cycle).1 l
+  | o :: l => cyclesMeetLocks (step s o).1 l
+
+/-- **(patched code) No change is lost behind a state lock**: once a change is announced, the flag
+stays set through everything — further ops of any kind, busy cycle requests, cycles that run while
+some state lock is held — until a cycle runs with no lock held; that cycle reconciles every upload
+against the configuration of that moment (`C08_reconcile`, `C08_reconcile_no_lock`). -/
+theorem C08_relook_until_unlocked (hcode : relookWhenLocked = true) (ops : List Op) (s : S)
+    (hflag : s.sharesChanged = true) (hops : cyclesMeetLocks s ops = true) :
+    (run s ops).sharesChanged = true := by
+  induction ops generalizing s with
+  | nil => exact hflag
+  | cons op ops ih =>
+    simp only [run, List.foldl_cons]
+    by_cases hop : op = .cycle
+    · subst hop
+      simp only [cyclesMeetLocks, Bool.and_eq_true, Bool.or_eq_true, Bool.not_eq_true'] at hops
+      refine ih _ ?_ hops.2
+      by_cases hj : jobWaiting s.flights = true
+      · rw [busy_cycle_noop s hj]; exact hflag
+      · have hne : s.flights.isEmpty = false := by
+          rcases hops.1 with h | h
+          · exact absurd h hj
+          · exact h
+        simp [step, hj, hflag, hcode, hne]
+    · have hops' : cyclesMeetLocks (step s op).1 ops = true := by
+        cases op <;> first | exact absurd rfl hop | exact hops
+      exact ih _ (flag_persists s op hop hflag) hops'
+
+/-- (patched code) … on the witness of the finding: after the re-queue has run the flag is still
+set, and the next cycle aborts the upload for "File not shared" -/
+theorem C08_requeue_behind_lock_repaired (hcode : relookWhenLocked = true) :
+    (run Ex.s0 (Ex.setup ++ ExLock.stale)).sharesChanged = true ∧
+    (run Ex.s0 (Ex.setup ++ ExLock.stale ++ [.cycle])).xs[0]? = some ⟨1, Ex.pm, .aborted, some .notShared⟩ := by
+  have key : ∀ s : S, s.sharesChanged = true → jobWaiting s.flights = false → s.flights.isEmpty = false →
+      (step s .cycle).1 = { s with xs := (reconcileL s.cfg s.sh s.flights s.xs).1,
+                                   flights := (reconcileL s.cfg s.sh s.flights s.xs).2, sharesChanged := true } := by
+    intro s h1 h2 h3
+    simp [step, h1, h2, h3, hcode]
+  have e : run Ex.s0 (Ex.setup ++ ExLock.stale) =
+      (step (step (run Ex.s0 (Ex.setup ++ ExLock.stale.take 3)) .cycle).1 (.endCall 0)).1 := by
+    simp [run, ExLock.stale, List.foldl_append]
+  have e2 : run Ex.s0 (Ex.setup ++ ExLock.stale ++ [.cycle]) = (step (run Ex.s0 (Ex.setup ++ ExLock.stale)) .cycle).1 := by
+    simp [run, List.foldl_append]
+  rw [e2, e, key _ (by decide) (by decide) (by decide)]
+  constructor
+  · decide
+  · decide
+
 /-! ## Non-vacuity -/
 
 namespace Ex
@@ -701,6 +1006,40 @@ example : (run s0 (setup ++ [.setBlocked [(1, 32)], .cycle, .setBlocked [(1, 32)
   decide
 example : (run s0 (setup ++ [.setBlocked [(1, 32)], .cycle, .setBlocked [(1, 32), (2, 32)], .cycle])).xs =
     [⟨1, pm, .aborted, some .blocked⟩, ⟨2, pn, .aborted, some .blocked⟩] := by decide
+/-- **a block while the upload is being paused**: the friend's upload is being sent; the user pauses
+it — `pause()` waits for the upload's task, which is closing its file connection — and blocks the
+friend in the same breath -/
+def pausing : List Op := setup ++ [.meth 0 .initialize, .meth 0 .start,
+  .beginCall 0 { m := .pause } .cancelling, .setBlocked [(1, 32)]]
+example : (run s0 pausing).xs[0]? = some ⟨1, pm, .uploading, none⟩ ∧ isLocked (run s0 pausing).flights 0 = true ∧
+    (run s0 pausing).sharesChanged = true ∧ jobWaiting (run s0 pausing).flights = false := by decide
+/-- (the hypotheses of `C08_change_during_transition_partial` / `_interleaved` in this state) -/
+example : verdict (userBlocked (run s0 pausing).cfg ⟨1, pm, .uploading, none⟩)
+    (fileNotShared (run s0 pausing).cfg (run s0 pausing).sh ⟨1, pm, .uploading, none⟩) none = some .blocked := by decide
+/-- the cycle finds the lock held: the upload stays as it shows, the abort waits and the job with it -/
+example : (run s0 (pausing ++ [.cycle])).xs[0]? = some ⟨1, pm, .uploading, none⟩ ∧
+    jobWaiting (run s0 (pausing ++ [.cycle])).flights = true ∧
+    (run s0 (pausing ++ [.cycle])).sharesChanged = relookWhenLocked := by decide
+/-- the connection is closed: PAUSED, and at once ABORTED / Blocked -/
+example : (run s0 (pausing ++ [.cycle, .endCall 0])).xs[0]? = some ⟨1, pm, .aborted, some .blocked⟩ ∧
+    (run s0 (pausing ++ [.cycle, .endCall 0])).flights = [] := by decide
+/-- meanwhile another cycle request (busy), the other upload paused, the friends list changed: the
+upload ends the same way, the new change is waiting for the next cycle -/
+example : (run s0 (pausing ++ [.cycle, .cycle, .meth 1 .pause, .setFriends [], .endCall 0])).xs[0]? =
+      some ⟨1, pm, .aborted, some .blocked⟩ ∧
+    (run s0 (pausing ++ [.cycle, .cycle, .meth 1 .pause, .setFriends [], .endCall 0])).sharesChanged = true := by
+  decide
+/-- the user's own abort under way instead of the pause: it wins, ABORTED / Requested -/
+example : (run s0 (setup ++ [.meth 0 .initialize, .beginCall 0 { m := .abort, r := some .requested } .cancelling,
+      .setBlocked [(1, 32)], .cycle, .endCall 0])).xs[0]? = some ⟨1, pm, .aborted, some .requested⟩ := by decide
+/-- a `fail` of the upload's task waiting behind the pause: the upload has FAILED when the cycle's abort
+gets its turn (refused) -/
+example : (run s0 (pausing ++ [.meth 0 .fail, .cycle, .endCall 0])).xs[0]? = some ⟨1, pm, .failed, none⟩ := by decide
+/-- suspended in the transition instead (the listeners are told, the upload shows PAUSED already) -/
+example : (run s0 (setup ++ [.beginCall 0 { m := .pause } .notifying, .setFriends [], .cycle])).xs[0]? =
+      some ⟨1, pm, .paused, none⟩ ∧
+    (run s0 (setup ++ [.beginCall 0 { m := .pause } .notifying, .setFriends [], .cycle, .endCall 0])).xs[0]? =
+      some ⟨1, pm, .aborted, some .notShared⟩ := by decide
 /-- search: `*b` by the stranger: the public file is a normal result, the two friends-only files
 are locked results; with the phrase `AB` (upper case) excluded, `m/aB.b` is in neither part
 (`m/b/A.a`, whose path does not contain `ab`, stays) -/
